@@ -98,3 +98,31 @@ def replay_end_service_without_server(prop, v):
 
 
 REPLAYS["Node.update_next_end_service_without_server"] = replay_end_service_without_server
+
+
+def replay_negative_sample(prop, v):
+    """whole-run witness: a custom distribution whose sample() returns -5.0 used as service distribution"""
+    ciw = _ciw()
+
+    class Neg(ciw.dists.Distribution):
+        def sample(self, t=None, ind=None):
+            return -5.0
+    N = ciw.create_network(arrival_distributions=[ciw.dists.Deterministic(1.0)], service_distributions=[Neg()],
+                           number_of_servers=[1])
+    Q = ciw.Simulation(N)
+    try:
+        Q.simulate_until_max_time(4.5)
+    except ValueError as e:
+        return dict(confirmed=False, kind="whole-run", transcript=f"the invalid sample is rejected: ValueError({e})")
+    recs = Q.get_all_records()
+    bad = [r for r in recs if r.service_time < 0 or r.service_end_date < r.service_start_date]
+    if bad:
+        return dict(confirmed=True, kind="whole-run",
+                    transcript=f"service distribution returning -5.0 is accepted silently: {len(bad)} service records with negative "
+                               f"service_time, e.g. start={bad[0].service_start_date} end={bad[0].service_end_date}")
+    return dict(confirmed=False, kind="whole-run", transcript="no corrupted record observed")
+
+
+for _u in ["Node.decide_class_change", "Node.begin_service_if_possible_accept", "Node.begin_service_if_possible_release",
+           "Node.preempt", "Node.slotted_service", "Node.begin_service_if_possible_change_shift"]:
+    REPLAYS.setdefault(_u, replay_negative_sample)
